@@ -159,6 +159,52 @@ def run(ctx: Ctx) -> None:
                 return f"parameter-gradient:{k}"
         return None
 
+    # ---------------- the two primitives, on sequences of formats that share E/M but differ in rounding mode / random-bit
+    #                  count (fewer bits first): each call must use the format it was called on
+    torch.randint = pinned_randint
+    try:
+        seqs = [[FPFormat(4, 3, "stochastic", srbits=2), FPFormat(4, 3, "stochastic", srbits=9), FPFormat(4, 3, "nearest"),
+                 FPFormat(4, 3), FPFormat(4, 3, "stochastic", srbits=2)],
+                [FPFormat(5, 2, "nearest"), FPFormat(5, 2, "stochastic", srbits=1), FPFormat(5, 2, "stochastic", srbits=12)],
+                [FPFormat(8, 23, "nearest"), FPFormat(2, 1, "nearest"), FPFormat(3, 0, "stochastic", srbits=4)]]
+        for si, seq in enumerate(seqs):
+            for rep in range(2 if quick else 20):
+                gen_ = torch.Generator().manual_seed(1000 * si + rep)
+                x = torch.randn(5, 7, generator=gen_) * 3
+                up = torch.randn(5, 7, generator=gen_) * 3
+                for fi, fmt in enumerate(seq):
+                    key = {"primitive": "quantise_fwd/bwd", "format": fmt_json(fmt), "sequence": si, "position": fi, "rep": rep}
+                    ctx.count(key, bucket="primitives")
+                    with ctx.guard("C15:primitive", key):
+                        pinned_randint.highs.clear()
+                        want_q = fmt.quantise(x)
+                        want_g = fmt.quantise(up)
+                        xi = x.clone().requires_grad_(True)
+                        pinned_randint.highs.clear()
+                        y = fmt.quantise_fwd(xi)
+                        highs_f = sorted(set(pinned_randint.highs))
+                        (g,) = torch.autograd.grad(y, xi, up)
+                        if not torch.equal(y.detach(), want_q):
+                            ctx.violation("C15:quantise_fwd:value", "quantise_fwd does not return the value quantised to the format "
+                                          "it was called on", key, {"randint_highs": highs_f})
+                        if not torch.equal(g, up):
+                            ctx.violation("C15:quantise_fwd:grad", "quantise_fwd does not pass the gradient through unchanged", key)
+                        xj = x.clone().requires_grad_(True)
+                        pinned_randint.highs.clear()
+                        y2 = fmt.quantise_bwd(xj)
+                        (g2,) = torch.autograd.grad(y2, xj, up)
+                        highs_b = sorted(set(pinned_randint.highs))
+                        if not torch.equal(y2.detach(), x):
+                            ctx.violation("C15:quantise_bwd:value", "quantise_bwd changes the forward value", key)
+                        if not torch.equal(g2, want_g):
+                            ctx.violation("C15:quantise_bwd:grad", "quantise_bwd does not quantise the gradient to the format it was "
+                                          "called on", key, {"randint_highs": highs_b})
+                        if fmt.rounding == "stochastic" and fmt.exponent_bits < 8 and (highs_f != [2 ** fmt.srbits] or highs_b != [2 ** fmt.srbits]):
+                            ctx.violation("C15:primitive:srbits", "random-bit count used differs from the format's", key,
+                                          {"fwd": highs_f, "bwd": highs_b, "want": 2 ** fmt.srbits})
+    finally:
+        torch.randint = real_randint
+
     n_direct = 40 if quick else 1500
     n_dyn = 14 if quick else 250
     mreqs, mcases = [], []
